@@ -15,6 +15,7 @@
 package plan
 
 import (
+	"encoding/binary"
 	"fmt"
 	"reflect"
 	"strconv"
@@ -822,20 +823,26 @@ func GenerateSelectResultRowData(r *mysql.Result) error {
 }
 
 // copy from server.generateMapKey()
+// every column is encoded as a tag byte (0: NULL, 1: value) followed, for a
+// value, by the 8-byte length of its text and the text itself, so that different
+// column lists never share a key (NULL vs 'NULL', ('a+','b') vs ('a','+b')).
 func generateMapKey(groupColumns []interface{}) (string, error) {
-	bk := make([]byte, 0, 8)
-	separatorBuf, err := formatValue("+")
-	if err != nil {
-		return "", err
-	}
+	bk := make([]byte, 0, 16)
 
 	for _, v := range groupColumns {
+		if v == nil {
+			bk = append(bk, 0)
+			continue
+		}
 		b, err := formatValue(v)
 		if err != nil {
 			return "", err
 		}
+		var lenBuf [8]byte
+		binary.LittleEndian.PutUint64(lenBuf[:], uint64(len(b)))
+		bk = append(bk, 1)
+		bk = append(bk, lenBuf[:]...)
 		bk = append(bk, b...)
-		bk = append(bk, separatorBuf...)
 	}
 
 	return string(bk), nil
